@@ -95,7 +95,7 @@ Section Sem.
     | TI a, TI b, VI z => Ok (VI (cast_int_int a b z))
     | TI _, TF b, VI z => Ok (VF (f_of_int fo b z))
     | TF a, TI b, VF x => bind (cast_float_int a b x) (fun z => Ok (VI z))
-    | TF a, TF b, VF x => Ok (VF (f_cvt fo a b x))
+    | TF a, TF b, VF x => Ok (VF (if fty_eqb a b then x else f_cvt fo a b x))
     | _, _, _ => Unspec
     end.
 
